@@ -40,7 +40,7 @@ CT = {'bool': '_Bool', 'int': 'u32', 'unsigned': 'u32'}
 
 def make(tier):
     P = Plan('C17', level='proof', design_ref='DESIGN.md section 5 C17')
-    P.not_decided += ['heap value types tree (bounded under C09), raw_vector (bounded under C07); unique_ptr / shared_ptr / weak_ptr / recursive / reference are bounded scenarios', 'type_iso wrappers']
+    P.not_decided += ['heap value types tree (bounded under C09), raw_vector (bounded under C07); unique_ptr / shared_ptr / weak_ptr / recursive / reference are bounded scenarios']
     P.meta += ['== is an equivalence because it is proved equal to equality of the observable component tuple; strict weak order = irreflexive + transitive + transitive incomparability, each proved for three fully symbolic values']
     make_strong(P)
     for t in TYPES:
@@ -48,6 +48,7 @@ def make(tier):
     make_grid(P)
     make_ptr(P)
     make_record_perm(P)
+    make_iso(P)
     return P
 
 
@@ -250,3 +251,35 @@ extern "C" bool vf_rec_perm3_eq(int ax, int ay, int az, int bx, int by, int bz){
     u = P.unit('recperm', 'recperm.cpp', specs=['recperm.spec'], inline=True)
     for f in ('vf_rec_perm_eq', 'vf_rec_perm_ne', 'vf_rec_perm3_eq'):
         u.contract(f, cls='P', backends=['sat', 'cvc5'], timeout=600, what='record == / != between equivalent records with permuted element order: holds exactly when the elements with the same LABEL are equal')
+
+
+def make_iso(P):
+    """type_iso: decorate / undecorate expose exactly the wrapped value (strong typedef, enum, plain type)"""
+    shim = """#include <fcppt/make_strong_typedef.hpp>
+#include <fcppt/strong_typedef.hpp>
+#include <fcppt/type_iso/decorate.hpp>
+#include <fcppt/type_iso/undecorate.hpp>
+#include <fcppt/type_iso/undecorated_type.hpp>
+#include <fcppt/type_iso/strong_typedef.hpp>
+#include <fcppt/type_iso/enum.hpp>
+FCPPT_MAKE_STRONG_TYPEDEF(int, sint);
+FCPPT_MAKE_STRONG_TYPEDEF(sint, ssint);
+enum class E5 { a, b, c, d, e, fcppt_maximum = e };
+namespace ti = fcppt::type_iso;
+extern "C" {
+int vf_iso_strong(int v, int *round){ sint const s{ti::decorate<sint>(v)}; *round = ti::undecorate(s); return s.get(); }
+int vf_iso_nested(int v, int *round){ ssint const s{ti::decorate<ssint>(v)}; *round = ti::undecorate(s); return s.get().get(); }
+unsigned vf_iso_enum(unsigned v, unsigned *round){ E5 const e{ti::decorate<E5>(static_cast<fcppt::type_iso::undecorated_type<E5>>(v))}; *round = static_cast<unsigned>(ti::undecorate(e)); return static_cast<unsigned>(e); }
+int vf_iso_plain(int v){ return ti::undecorate(ti::decorate<int>(v)); }
+}
+"""
+    spec = ''
+    for f in ('vf_iso_strong', 'vf_iso_nested'):
+        spec += 'function %s\n  __CPROVER_requires(__CPROVER_is_fresh(round, 4))\n  __CPROVER_assigns(*round)\n  __CPROVER_ensures(__CPROVER_return_value == v && *round == v)\n' % f
+    spec += 'function vf_iso_enum\n  __CPROVER_requires(__CPROVER_is_fresh(round, 4) && v < 5)\n  __CPROVER_assigns(*round)\n  __CPROVER_ensures(__CPROVER_return_value == v && *round == v)\n'
+    spec += 'function vf_iso_plain\n  __CPROVER_assigns()\n  __CPROVER_ensures(__CPROVER_return_value == v)\n'
+    P.generated['iso.cpp'] = shim
+    P.generated['iso.spec'] = spec
+    u = P.unit('iso', 'iso.cpp', specs=['iso.spec'], inline=True)
+    for f, what in (('vf_iso_strong', 'strong typedef'), ('vf_iso_nested', 'nested strong typedef (undecorate strips every layer)'), ('vf_iso_enum', 'enum (underlying enumerator index)'), ('vf_iso_plain', 'plain type (identity)')):
+        u.contract(f, cls='P', backends=['sat', 'cvc5'], timeout=600, what='type_iso decorate / undecorate expose exactly the wrapped value and are mutually inverse: ' + what)
